@@ -234,3 +234,199 @@ def substdio_put_sites(db, rep, prog):
                     bad.setdefault('%s:no-byte-lost-or-duplicated' % fname, ('putting %d bytes with %d buffered: %s written + %s left in the buffer (result %s)' % (ln, p0, one(end.get('$written')), one(end.get('SS.p')), one(val)), tr))
     keys = ['%s:%s' % (f, k) for f in ('substdio_put', 'substdio_bput') for k in ('stores-stay-inside-the-buffer', 'no-byte-lost-or-duplicated')]
     return {k: (k not in bad, 'substdo.c', bad[k][0] if k in bad else '', bad[k][1] if k in bad else []) for k in keys}
+
+
+# =============================================================================== concrete strings
+def _one(v):
+    return next(iter(v)) if v is not TOP and v is not None and len(v) == 1 else None
+
+
+class SAConc:
+    """mixin: the stralloc family and the str/byte helpers on concrete bytes.  A stralloc object at path P is the cells
+    P.len and P.s[k] with P.s = &P.s[0]; a C string is a run of byte cells up to a 0 cell.  Allocation never fails
+    here (the callers' out-of-memory exits are not what these explorations are about)."""
+    def sa_bytes(self, E, obj):
+        n = _one(E.get(obj + '.len'))
+        if not isinstance(n, int) or not 0 <= n <= 512:
+            return None
+        out = []
+        for k in range(n):
+            b = _one(E.get('%s.s[%d]' % (obj, k)))
+            if not isinstance(b, int):
+                return None
+            out.append(b & 255)
+        return bytes(out)
+
+    def mem(self, E, p, n):
+        from qv.esp import ptr_add
+        if isinstance(p, tuple) and p[0] == 'str':
+            return bytes((ord(c) & 255) for c in p[1])[:n] if n <= len(p[1]) + 1 else None
+        out = []
+        for k in range(n):
+            q = ptr_add(p, k) if isinstance(p, tuple) else None
+            b = _one(E.get(q[1])) if q is not None else None
+            if not isinstance(b, int):
+                return None
+            out.append(b & 255)
+        return bytes(out)
+
+    def cstring(self, E, p):
+        from qv.esp import ptr_add
+        if isinstance(p, tuple) and p[0] == 'str':
+            return bytes((ord(c) & 255) for c in p[1])
+        out = []
+        for k in range(600):
+            q = ptr_add(p, k) if isinstance(p, tuple) else None
+            b = _one(E.get(q[1])) if q is not None else None
+            if not isinstance(b, int):
+                return None
+            if b == 0:
+                return bytes(out)
+            out.append(b & 255)
+        return None
+
+    def _put(self, E, x, args, data, append):
+        sa = _one(args[0])
+        if not (isinstance(sa, tuple) and sa[0] == '&') or data is None:
+            return [Outcome(ret=TOP)]
+        obj = sa[1]
+        old = self.sa_bytes(E, obj) if append else b''
+        if old is None:
+            return [Outcome(ret=TOP)]
+        new = old + data
+        st = {obj + '.s': fs(('&', obj + '.s[0]')), obj + '.len': fs(len(new))}
+        for k in range(len(old), len(new)):
+            b = new[k]
+            st['%s.s[%d]' % (obj, k)] = fs(b - 256 if b >= 128 else b)
+        return [Outcome(ret=fs(1), sets=st)]
+
+    def prim_stralloc_copys(self, E, x, args):
+        return self._put(E, x, args, self.cstring(E, _one(args[1])), False)
+
+    def prim_stralloc_cats(self, E, x, args):
+        return self._put(E, x, args, self.cstring(E, _one(args[1])), True)
+
+    def prim_stralloc_copyb(self, E, x, args):
+        n = _one(args[2])
+        return self._put(E, x, args, self.mem(E, _one(args[1]), n) if isinstance(n, int) else None, False)
+
+    def prim_stralloc_catb(self, E, x, args):
+        n = _one(args[2])
+        return self._put(E, x, args, self.mem(E, _one(args[1]), n) if isinstance(n, int) else None, True)
+
+    def _other(self, E, args):
+        o = _one(args[1])
+        return self.sa_bytes(E, o[1]) if isinstance(o, tuple) and o[0] == '&' else None
+
+    def prim_stralloc_copy(self, E, x, args):
+        return self._put(E, x, args, self._other(E, args), False)
+
+    def prim_stralloc_cat(self, E, x, args):
+        return self._put(E, x, args, self._other(E, args), True)
+
+    def prim_stralloc_append(self, E, x, args):
+        return self._put(E, x, args, self.mem(E, _one(args[1]), 1), True)
+
+    def prim_stralloc_0(self, E, x, args):
+        return self._put(E, x, args, b'\0', True)
+
+    def prim_stralloc_ready(self, E, x, args):
+        sa = _one(args[0])
+        if isinstance(sa, tuple) and sa[0] == '&':
+            return [Outcome(ret=fs(1), sets={sa[1] + '.s': fs(('&', sa[1] + '.s[0]'))})]
+        return [Outcome(ret=fs(1))]
+
+    prim_stralloc_readyplus = prim_stralloc_ready
+
+    def prim_str_len(self, E, x, args):
+        s_ = self.cstring(E, _one(args[0]))
+        return [Outcome(ret=fs(len(s_)) if s_ is not None else TOP)]
+
+    prim_strlen = prim_str_len
+
+    def prim_str_chr(self, E, x, args):
+        s_, c = self.cstring(E, _one(args[0])), _one(args[1])
+        if s_ is None or not isinstance(c, int):
+            return [Outcome(ret=TOP)]
+        i = s_.find(bytes([c & 255]))
+        return [Outcome(ret=fs(i if i >= 0 else len(s_)))]
+
+    def prim_str_rchr(self, E, x, args):
+        s_, c = self.cstring(E, _one(args[0])), _one(args[1])
+        if s_ is None or not isinstance(c, int):
+            return [Outcome(ret=TOP)]
+        i = s_.rfind(bytes([c & 255]))
+        return [Outcome(ret=fs(i if i >= 0 else len(s_)))]
+
+    def prim_byte_chr(self, E, x, args):
+        n, c = _one(args[1]), _one(args[2])
+        m = self.mem(E, _one(args[0]), n) if isinstance(n, int) and n >= 0 else None
+        if m is None or not isinstance(c, int):
+            return [Outcome(ret=TOP)]
+        i = m.find(bytes([c & 255]))
+        return [Outcome(ret=fs(i if i >= 0 else n))]
+
+    def prim_byte_rchr(self, E, x, args):
+        n, c = _one(args[1]), _one(args[2])
+        m = self.mem(E, _one(args[0]), n) if isinstance(n, int) and n >= 0 else None
+        if m is None or not isinstance(c, int):
+            return [Outcome(ret=TOP)]
+        i = m.rfind(bytes([c & 255]))
+        return [Outcome(ret=fs(i if i >= 0 else n))]
+
+    def prim_str_equal(self, E, x, args):
+        a, b = self.cstring(E, _one(args[0])), self.cstring(E, _one(args[1]))
+        return [Outcome(ret=fs(int(a == b)) if a is not None and b is not None else TOP)]
+
+    def prim_str_diff(self, E, x, args):
+        a, b = self.cstring(E, _one(args[0])), self.cstring(E, _one(args[1]))
+        return [Outcome(ret=fs(0 if a == b else (1 if a > b else -1)) if a is not None and b is not None else TOP)]
+
+    def prim_byte_diff(self, E, x, args):
+        n = _one(args[1])
+        a = self.mem(E, _one(args[0]), n) if isinstance(n, int) else None
+        b = self.mem(E, _one(args[2]), n) if isinstance(n, int) else None
+        return [Outcome(ret=fs(0 if a == b else (1 if a > b else -1)) if a is not None and b is not None else TOP)]
+
+    def prim_memcmp(self, E, x, args):
+        n = _one(args[2])
+        a = self.mem(E, _one(args[0]), n) if isinstance(n, int) else None
+        b = self.mem(E, _one(args[1]), n) if isinstance(n, int) else None
+        return [Outcome(ret=fs(0 if a == b else (1 if a > b else -1)) if a is not None and b is not None else TOP)]
+
+    def prim_strcmp(self, E, x, args):
+        return self.prim_str_diff(E, x, args)
+
+    def prim_strncmp(self, E, x, args):
+        n = _one(args[2])
+        a, b = self.cstring(E, _one(args[0])), self.cstring(E, _one(args[1]))
+        if a is None or b is None or not isinstance(n, int):
+            return [Outcome(ret=TOP)]
+        a, b = a[:n], b[:n]
+        return [Outcome(ret=fs(0 if a == b else (1 if a > b else -1)))]
+
+    def prim_strchr(self, E, x, args):
+        from qv.esp import ptr_add
+        p, c = _one(args[0]), _one(args[1])
+        s_ = self.cstring(E, p)
+        if s_ is None or not isinstance(c, int) or not (isinstance(p, tuple) and p[0] == '&'):
+            return [Outcome(ret=TOP)]
+        i = (s_ + b'\0').find(bytes([c & 255]))
+        return [Outcome(ret=fs(ptr_add(p, i)) if i >= 0 else fs(0))]
+
+    def prim_byte_equal(self, E, x, args):
+        n = _one(args[1])
+        a = self.mem(E, _one(args[0]), n) if isinstance(n, int) else None
+        b = self.mem(E, _one(args[2]), n) if isinstance(n, int) else None
+        return [Outcome(ret=fs(int(a == b)) if a is not None and b is not None else TOP)]
+
+
+def conc_string_cells(prefix, data, terminate=True):
+    """initial store cells for a byte string at prefix[0..]"""
+    st = {}
+    bs = data if isinstance(data, (bytes, bytearray)) else data.encode('latin-1')
+    for k, b in enumerate(bs):
+        st['%s[%d]' % (prefix, k)] = fs(b - 256 if b >= 128 else b)
+    if terminate:
+        st['%s[%d]' % (prefix, len(bs))] = fs(0)
+    return st
